@@ -62,6 +62,10 @@ CHECKS = {
    technique='deterministic simulation of the policy directory monitor: real files with simulated mtimes, step-wise scans and the real run() loop under the scheduler with a simulated clock; file-system faults (torn write, vanish race, mtime tie, clock jump back, monitor restart); latest-good-load-wins reference model',
    text='All event sequences up to depth 3 (quick) / 4 (thorough) over a 9-letter alphabet, plus random sequences up to 30 events over 3 files x 3 policy names (+ reserved names) with unique definitions in every documented shape and 9 kinds of invalid document at any position, with torn writes, a file vanishing between listdir and getmtime, edits that do not advance the mtime, clock jumps backwards and monitor restarts; plus a live sub-batch running the real run() loop with bounded-liveness check (store == model within 2 simulated seconds after the last event). After every scan the store must equal built-ins + latest good load per name; built-ins never change; invalid files only raise ValueError and change nothing; scan_policies never raises (except the injected vanish race, after which the next scan must converge).',
    note='Manager().dict() is replaced by a plain dict with list-returning keys()/items(). For a name two files (re)load in the same scan either winner is accepted. Edits invisible through the mtime may be missed until the mtime advances.'),
+ 'C19': dict(level='exploration', ref='5/C19',
+   technique='deterministic simulation of the client against a scripted peer over a fault-injecting stream (enumerated split points and cut offsets, reset, timeout, trailing bytes); responses built with an independent TTLV encoder',
+   text='Every ProxyKmipClient operation (21) under seeded KMIP versions against a scripted responder that sends legal responses built with the independent encoder: success with seeded payload values (all seven object types incl. wrapped and split keys for get) or failure with any result reason and empty/non-ASCII/long messages. The response stream is delivered whole, split (every single split point enumerated for responses <= 256 bytes), cut at EVERY offset (must raise, never return data), reset or timed out, or followed by trailing bytes. Success must return exactly the payload data (independent projection), failure must raise with exactly (status, reason, message), results must not depend on chunking, and every request the client emits must parse with the independent reader and be accepted by the real server decoder.',
+   note='Only legal responses are judged (one item echoing the operation, batch count 1). KMIPProxy.open() is stubbed. Which exception a truncated response raises is not prescribed.'),
 }
 ALL = ['C%02d' % i for i in range(1, 21)]
 
